@@ -34,7 +34,7 @@ def gen_lists(g, rng, kind):
         return l
     lists = {c: nl(c) for c in ('kex', 'key', 'enc', 'mac')}
     lists['kex'] = [n[:-1] + rng.choice(inproc.GSS_SUFFIXES).encode() if n.endswith(b'-*') else n for n in lists['kex']]
-    lists['comp'] = rng.choice([[b'none'], [b'none', b'zlib@openssh.com'], [b'zlib', b'none'], [b'zlib@openssh.com']])
+    lists['comp'] = rng.choice([[b'none'], [b'none', b'zlib@openssh.com'], [b'zlib', b'none'], [b'zlib@openssh.com'], [b'zlib@openssh.com', b'none'], [b'zlib@openssh.com', b'zlib', b'none'], [b'zlib', b'none', b'zlib']])
     return lists
 
 
@@ -71,6 +71,14 @@ def run(ctx):
         role = 'client' if i % 3 == 2 else 'server'
         banner = rng.choice([b'SSH-2.0-OpenSSH_8.9p1 Ubuntu-3', b'SSH-2.0-dropbear_2022.83', b'SSH-2.0-libssh_0.9.6', b'SSH-2.0-Weird_Soft-1.0 with  comments', b'SSH-2.0-PuTTY_Release_0.78'])
         cases.append({'kind': kind, 'role': role, 'banner': banner, 'lists': gen_lists(g, rng, kind), 'opts': OPTS[i % len(OPTS)], 'port': None})
+    # probe-heavy archetypes: every follow-up phase (host-key probes over DH/ECDH and over GEX, GEX size probes) runs between parsing the
+    # peer's KEXINIT and printing it; non-canonical list orders and duplicates make any in-place reordering by those phases visible
+    for i, (kexs, comp) in enumerate([([b'curve25519-sha256', b'diffie-hellman-group-exchange-sha256'], [b'zlib@openssh.com', b'none']),
+                                      ([b'diffie-hellman-group-exchange-sha1', b'diffie-hellman-group14-sha1', b'ecdh-sha2-nistp256'], [b'zlib', b'none', b'zlib@openssh.com']),
+                                      ([b'diffie-hellman-group-exchange-sha256', b'diffie-hellman-group-exchange-sha1'], [b'zlib', b'none'])]):
+        for opts in (['-j'], ['-n', '-v']):
+            cases.append({'kind': 'probes', 'role': 'server', 'banner': b'SSH-2.0-OpenSSH_8.9p1', 'opts': opts, 'port': None,
+                          'lists': {'kex': kexs, 'key': [b'ssh-ed25519', b'rsa-sha2-512', b'ssh-rsa', b'ssh-ed25519'][i:], 'enc': [b'aes256-ctr', b'aes128-ctr', b'aes256-ctr'], 'mac': [b'hmac-sha2-512', b'hmac-sha2-256'], 'comp': comp}})
     s1cases = [{'cmask': rng.getrandbits(7) | (1 << rng.randrange(7)), 'amask': rng.getrandbits(7) & 0x7e | (1 << rng.randrange(1, 7)), 'opts': OPTS[i % len(OPTS)]} for i in range(10 if q else 128)]
     if not q:
         s1cases += [{'cmask': m, 'amask': (m * 2) & 0x7e or 2, 'opts': ['-n']} for m in range(1, 128)]
